@@ -253,7 +253,37 @@ func (e *Eng) actPARPush() {
 		form.Del("redirect_uri")
 		e.label("par-push-without-redirect_uri")
 	}
-	res := e.w.PAR(form, e.auth(client))
+	pushCarriesRequestURI := rapid.IntRange(0, 7).Draw(t, "pushCarriesRequestURI") == 0
+	if pushCarriesRequestURI {
+		form.Set("request_uri", rapid.SampledFrom([]string{"urn:ietf:params:oauth:request_uri:abc", "https://rp.example/request.jwt", "x"}).Draw(t, "innerRequestURI"))
+	}
+	badAuth := rapid.IntRange(0, 7).Draw(t, "pushBadAuth") == 0
+	auth := e.auth(client)
+	if badAuth {
+		auth.BasicPass = "not-the-secret"
+	}
+	res := e.w.PAR(form, auth)
+	if pushCarriesRequestURI || badAuth {
+		e.step("parPush:invalid")
+		e.label("par-push-invalid")
+		if res.RequestURI != "" || res.Err.OK() {
+			if badAuth {
+				e.viol("C17/push-without-client-authentication", "push with a wrong client secret was accepted")
+			} else {
+				e.viol("C17/push-containing-request_uri-accepted", "a push that itself contains request_uri=%q was accepted", form.Get("request_uri"))
+			}
+		}
+		return
+	}
+	if res.RequestURI != "" {
+		wantPrefix := e.w.Cfg.PushedAuthorizeRequestURIPrefix
+		if wantPrefix == "" {
+			wantPrefix = "urn:ietf:params:oauth:request_uri:"
+		}
+		if !strings.HasPrefix(res.RequestURI, wantPrefix) {
+			e.viol("C17/request-uri-prefix", "request_uri %q does not carry the configured prefix %q", res.RequestURI, wantPrefix)
+		}
+	}
 	e.step("parPush")
 	if !res.Err.OK() || res.RequestURI == "" {
 		e.logf("parPush client=%s -> %v (not asserted)", client, res.Err)
@@ -281,6 +311,31 @@ func (e *Eng) actPARUse() {
 	p := e.pickCred("par", "par")
 	if p == nil {
 		t.Skip("no request_uri")
+	}
+	if rapid.IntRange(0, 7).Draw(t, "unknownURI") == 0 {
+		// a request_uri nobody pushed: same prefix with an unknown or mutated reference, or a foreign prefix
+		kind := rapid.SampledFrom([]string{"unknown-reference", "mutated", "foreign-prefix", "prefix-only"}).Draw(t, "unknownKind")
+		prefix := e.w.Cfg.PushedAuthorizeRequestURIPrefix
+		if prefix == "" {
+			prefix = "urn:ietf:params:oauth:request_uri:"
+		}
+		uri := prefix + "AAAAAAAAAAAAAAAAAAAAAAAAAAAAAAAAAAAAAAAAAAA"
+		switch kind {
+		case "mutated":
+			uri = flipChar(p.Val, len(p.Val)-3)
+		case "foreign-prefix":
+			uri = "urn:example:other:" + strings.TrimPrefix(p.Val, prefix)
+		case "prefix-only":
+			uri = prefix
+		}
+		res := e.w.Authorize(url.Values{"client_id": {p.G.Client}, "request_uri": {uri}}, h.Consent{Session: e.w.Sess("user-x")})
+		e.step("parUse:" + kind)
+		e.label("par-use-" + kind)
+		e.logf("parUse unknown uri kind=%s -> %v code=%v", kind, res.Err, res.Code != "")
+		if res.Code != "" || res.Access != "" || res.IDToken != "" {
+			e.viol("C17/unknown-request-uri-honoured", "an authorization was started with the never-pushed request_uri %q (%s)", uri, kind)
+		}
+		return
 	}
 	g := p.G
 	presenter := g.Client
